@@ -8,6 +8,7 @@ mod node;
 mod adversary;
 mod batch;
 mod props;
+mod puppet;
 mod cluster;
 mod entropy;
 mod gen;
